@@ -119,8 +119,14 @@ def draws(ctx, obs, q, kinds):
                 okd = isinstance(by, ast.Name) and by.id == want
             else:
                 okd = any(isinstance(n, ast.Name) and n.id == 'PARAM_pattern_descriptor' for n in ast.walk(by))
-            obs.check(okd, 'PAIR', q, f'{factor} selection uses the descriptor the groups were read from',
-                      f'`{norm(s.node)[:80]}` selects by `{ast.unparse(by)[:50]}`', '', where(prog, f, s.node))
+            con_by = f'{factor} selection uses the descriptor the groups were read from'
+            wantp = 'PARAM_rdm_descriptor' if factor == 'rdm' else 'PARAM_pattern_descriptor'
+            # a field of a record / the result of a helper that was given the descriptor: which field is which is not decided here
+            carried = isinstance(by, (ast.Attribute, ast.Subscript, ast.Call)) and any(isinstance(n, ast.Name) and n.id == wantp for n in ast.walk(by))
+            if not okd and carried:
+                obs.unk('PAIR', q, con_by, f'`{norm(s.node)[:80]}` selects by `{ast.unparse(by)[:50]}`, which carries the descriptor name', where(prog, f, s.node))
+            else:
+                obs.check(okd, 'PAIR', q, con_by, f'`{norm(s.node)[:80]}` selects by `{ast.unparse(by)[:50]}`', '', where(prog, f, s.node))
             # returned index is the same expression
             ret_ok = False
             for node, _, _ in r.returns:
